@@ -501,7 +501,7 @@ def describe(case, obs):
 
 
 # ------------------------------------------------------------------ panels with more than 256 reference samples
-def gen_big(rng, tier):
+def gen_big(rng, tier, no_repl=False):
     n = 6 if tier == "quick" else 60
     for _ in range(n):
         nref = rng.choice([260, 300, 520])
@@ -515,8 +515,10 @@ def gen_big(rng, tier):
                     segs.append([rng.randint(1, 2), cnum(c), e, 0])
             haps.append(segs)
         # the second population sits in the columns from 256 on (or the populations alternate)
-        layout = rng.choice(["second-pop-last", "first-pop-last", "alternating"])
-        yield {"nref": nref, "chroms": chroms, "haps": haps, "layout": layout, "fmt_out": rng.choice([".vcf", ".vcf.gz", ".bcf"]), "pop_field": rng.random() < 0.5, "seed": rng.randrange(2**31)}
+        layout = rng.choice(["second-pop-last", "first-pop-last", "alternating", "few-used-samples-last"])
+        if no_repl:
+            layout = "few-used-samples-last"
+        yield {"no_repl": no_repl, "nref": nref, "chroms": chroms, "haps": haps, "layout": layout, "fmt_out": rng.choice([".vcf", ".vcf.gz", ".bcf"]), "pop_field": rng.random() < 0.5, "seed": rng.randrange(2**31)}
 
 
 def _big_panel(case):
@@ -526,6 +528,10 @@ def _big_panel(case):
     n = case["nref"]
     if case["layout"] == "alternating":
         pops = ["P1" if i % 2 == 0 else "P2" for i in range(n)]
+    elif case["layout"] == "few-used-samples-last":
+        # a large panel of which the model uses a handful of samples (ten, in the last columns); the rest belong to a population
+        # the model does not name
+        pops = ["P0" if i < n - 10 else ("P1" if i % 2 == 0 else "P2") for i in range(n)]
     else:
         first = "P1" if case["layout"] == "second-pop-last" else "P2"
         pops = [first if i < n // 2 else ("P2" if first == "P1" else "P1") for i in range(n)]
@@ -553,7 +559,7 @@ def impl_big(case):
     bps = [[S(p, c, e, float(m)) for p, c, e, m in h] for h in case["haps"]]
     out = str(d / ("out" + case["fmt_out"]))
     np.random.seed(case["seed"] % 2**32)
-    sg.output_vcf(bps, case["chroms"], str(d / "model.dat"), str(d / "ref.vcf.gz"), str(d / "info.tab"), None, case["pop_field"], True, False, out, SD.silent_log())
+    sg.output_vcf(bps, case["chroms"], str(d / "model.dat"), str(d / "ref.vcf.gz"), str(d / "info.tab"), None, case["pop_field"], True, bool(case.get("no_repl")), out, SD.silent_log())
     return read_output(out, {"fmt_out": case["fmt_out"]})
 
 
